@@ -76,6 +76,9 @@ def main(argv):
     if a.only:
         only = set(a.only.split(','))
         joblist = [(j, s) for j, s in joblist if j in only]
+        if not joblist:
+            print('UNDECIDED property=%s: --only %s selects no job of tier %s' % (pid, a.only, a.tier))
+            return 2
     t0 = time.time()
     runid = '%s-%d-%d' % (pid, os.getpid(), int(t0))
     work = os.path.join(BUILD, runid)
